@@ -109,6 +109,7 @@ Unwrap(e) == IF e.k = "group" THEN Unwrap(e.e) ELSE e
 ValueTypes(vals, ctx) ==
   IF Len(vals) = 1 /\ vals[1].k = "call" /\ TypeOf(vals[1], ctx) = "multi" THEN ctx.funcs[vals[1].name].results
   ELSE IF Len(vals) = 1 /\ vals[1].k = "group" /\ Unwrap(vals[1]).k = "call" /\ TypeOf(Unwrap(vals[1]), ctx) = "multi" THEN <<"?parenthesised-multi-valued-call">>
+  ELSE IF Len(vals) = 1 /\ vals[1].k = "group" /\ Unwrap(vals[1]).k = "app" THEN <<"?parenthesised-multi-valued-call">>
   ELSE IF Len(vals) = 1 /\ vals[1].k = "app" THEN <<"string", "string", "int">>
   ELSE [i \in 1..Len(vals) |-> Opnd(vals[i], ctx)]
 
